@@ -42,6 +42,33 @@ def run(tier, argv):
     rep.cov["traces_validated_against_impl"] = s["trees"]
     rep.cov["exhaustive"] = True
     rep.cov["rule"] = "%d schemas (rule families + notes, named/inline enums, allOf, shortcuts, or rule-sets, nested containers, escaped keys) with the AST computed by Ast!RootAST" % n
+    # which node an annotation belongs to: Bind.tla (I = R on every layout, both switches still violate), every layout through the real loader
+    ma = "2" if quick else "5"
+    rb = vlib.tlc(work, "Bind", "Bind.cfg", consts={"MaxAnn": ma}, timeout=3000, heap="8g")
+    rep.add_tlc(rb, "Bind: loader algorithm = reading of the notation on every layout with <= %s annotations (Agree)" % ma)
+    for sw in ("NoteAfterBraceToLast", "NoteBeforeValueToPrev"):
+        rv = vlib.tlc(work, "Bind", "Bind.cfg", consts={"MaxAnn": "2", sw: "TRUE"}, allow_violation=True, timeout=1200)
+        if not rv.violation:
+            raise vlib.Infra("vacuous: switch %s no longer violates Bind!Agree" % sw)
+    rawb = work.path("bind.txt")
+    rb = vlib.tlc(work, "Bind", "Bind.cfg", consts={"MaxAnn": "3" if quick else "5", "Export": "TRUE"}, to_file=rawb, timeout=3000, workers=1, heap="8g")
+    bcases = work.path("bind.ndjson")
+    nb = 0
+    with open(bcases, "w") as f:
+        for l in vlib.tagged_file(rawb, "@@CASE"):
+            f.write(l + "\n")
+            nb += 1
+    if nb == 0:
+        raise vlib.Infra("Bind exported no layout")
+    bm = work.path("bind-mism.ndjson")
+    p = vlib.run_harness(hbin, ["c16bind", "-cases", bcases, "-out", bm], timeout=3000)
+    if p.returncode != 0:
+        raise vlib.Infra("c16bind failed: " + p.stderr.decode()[-2000:])
+    rep.notes["bind"] = semcommon.summary_of(p.stderr)
+    rep.cov["evaluations"] += nb
+    rep.cov["traces_validated_against_impl"] += rep.notes["bind"]["judged"]
+    for b in vlib.read_ndjson(bm):
+        bad.append({"schema": b["schema"], "where": "annotation binding: " + b["where"]})
     for b in bad[:40]:
         rep.violation(b, "%s | %s" % (b["schema"].replace("\n", "\\n")[:160], b["where"][:400]))
     rep.violations = len(bad)
